@@ -80,11 +80,14 @@ func (s *Service) Proposal(ctx context.Context,
 				if len(providerGraffiti) > 32 {
 					providerGraffiti = providerGraffiti[0:32]
 				}
+				// The graffiti may now be shorter than 32 bytes, so pad it rather than convert it.
+				var paddedGraffiti [32]byte
+				copy(paddedGraffiti[:], providerGraffiti)
 				// Replace entire opts structure so the mutated graffiti does not leak to other providers.
 				opts = &api.ProposalOpts{
 					Slot:                   opts.Slot,
 					RandaoReveal:           opts.RandaoReveal,
-					Graffiti:               [32]byte(providerGraffiti),
+					Graffiti:               paddedGraffiti,
 					SkipRandaoVerification: opts.SkipRandaoVerification,
 				}
 			}
